@@ -208,9 +208,32 @@ func readData(m *mp4.MdatBox, file []byte, start, size int64, orc []int, zeof bo
 	res := resStr(b, err, p)
 	if p == "" && err == nil {
 		appendToResult(m, file, start, size, b) // hygiene.go 2(b)
+		// what earlier calls returned must still hold the bytes it held when it was returned (a reader that
+		// re-uses one buffer for successive results hands out slices that later reads overwrite)
+		for _, k := range keptResults {
+			if !bytes.Equal(k.b, k.snap) {
+				fail("MdatBox.ReadData", "earlier-result-overwritten", fmt.Sprintf("ReadData(%d,%d) after ReadData(%d,%d) on the same box; file=%s", start, size, k.start, k.size, hx.Hex(file[:minInt(len(file), 80)])),
+					"a slice returned by an earlier ReadData call changed when ReadData was called again: "+hx.Hex(k.snap[:minInt(len(k.snap), 16)])+" became "+hx.Hex(k.b[:minInt(len(k.b), 16)]))
+				keptResults = nil
+				break
+			}
+		}
+		if len(b) > 0 {
+			if len(keptResults) >= 4 {
+				keptResults = keptResults[1:]
+			}
+			keptResults = append(keptResults, keptResult{b: b, snap: append([]byte{}, b...), start: start, size: size})
+		}
 	}
 	return res
 }
+
+type keptResult struct {
+	b, snap     []byte
+	start, size int64
+}
+
+var keptResults []keptResult
 
 func copyData(m *mp4.MdatBox, file []byte, start, size int64, orc []int, zeof bool) string {
 	w := &sink{}
